@@ -16,4 +16,6 @@ CASES = [
          old="            value = UTC_ZERO + value", new="            value = (UTC_ZERO + value).replace(tzinfo=timezone.utc)")]),
     dict(expect="fire", desc="seed C36/3: epoch constant built from a naive literal in the local zone", names="Z2-epoch", edits=[dict(file="reactivex/internal/constants.py",
          old="UTC_ZERO = datetime.fromtimestamp(0, tz=timezone.utc)", new="UTC_ZERO = datetime(1970, 1, 1).astimezone(timezone.utc)")]),
+    dict(expect="fire", desc="mutant: TimeoutScheduler.schedule_absolute no longer converts its due time", names="Z4-absolute-converted", edits=[dict(file="reactivex/scheduler/timeoutscheduler.py",
+         old="        duetime = self.to_datetime(duetime)\n", new="")]),
 ]
